@@ -10,6 +10,7 @@ import Cerberus.Model.Setters
 import Cerberus.Model.Validate
 import Cerberus.Model.Normalize
 import Cerberus.Model.Api
+import Cerberus.Model.Schema
 import Cerberus.Extracted
 import Cerberus.Model.RefTables
 open Lean Cerberus Cerberus.Codec
@@ -298,6 +299,69 @@ def portApi (j : Json) : Except String Json := do
   -- a regex-oracle question anywhere in the run is passed up
   pure (Json.mkObj [("obs", Json.arr obs.toArray)])
 
+/-! ### port `accept`: submitting a schema -/
+
+def clsOfJson (j : Json) : Except String Cls := do
+  match j.getObjVal? "cls" with
+  | .error _ =>
+    pure { rules := Extracted.metaSchemaFields, validationRules := Extracted.validationRules,
+           types := Extracted.typeNames }
+  | .ok c =>
+    let rules ← valOfJson (← c.getObjVal? "rules")
+    let vr ← (← jarr (← c.getObjVal? "validation_rules")).toList.mapM jstr
+    let ty ← (← jarr (← c.getObjVal? "types")).toList.mapM jstr
+    match rules with
+    | .dict kvs => pure { rules := kvs, validationRules := vr, types := ty }
+    | _ => throw "cls.rules must be a dict"
+
+def acceptToJson : S.Accept → Json
+  | .accepted v => Json.mkObj [("accepted", valToJson v)]
+  | .schemaError => Json.str "schema_error"
+  | .raised t => Json.mkObj [("raised", Json.str t)]
+
+def portAccept (j : Json) : Except String Json := do
+  let cls ← clsOfJson j
+  let ej := (j.getObjVal? "env").toOption.getD (Json.mkObj [])
+  let regsR ← regOfJson ej "rulesSets"
+  let regsS ← regOfJson ej "schemas"
+  let raw ← valOfJson (← j.getObjVal? "schema")
+  let kind := (j.getObjVal? "kind").toOption.bind (·.getStr?.toOption) |>.getD "schema"
+  match kind with
+  | "expand" =>
+    match raw with
+    | .dict kvs =>
+      match S.expand kvs with
+      | some e => pure (Json.mkObj [("expanded", valToJson (.dict e))])
+      | none => pure (Json.mkObj [("raised", Json.str "RuntimeError")])
+    | _ => throw "expand needs a dict"
+  | _ => pure (acceptToJson (S.acceptSchema cls Extracted.metaTables regsR regsS raw))
+
+/-! ### port `entries`: a sequence of schema submissions through the entry points -/
+
+def entryOfJson (j : Json) : Except String S.Entry := do
+  let kind ← jstr (← j.getObjVal? "entry")
+  match kind with
+  | "whole" => pure (.whole (← valOfJson (← j.getObjVal? "schema")))
+  | "setitem" => pure (.setItem (← keyOfJson (← j.getObjVal? "key")) (← valOfJson (← j.getObjVal? "rules")))
+  | "update" => pure (.update (← valOfJson (← j.getObjVal? "schema")))
+  | "allow_unknown" => pure (.allowUnknown (← valOfJson (← j.getObjVal? "value")))
+  | _ => throw s!"bad entry {kind}"
+
+def portEntries (j : Json) : Except String Json := do
+  let cls ← clsOfJson j
+  let ej := (j.getObjVal? "env").toOption.getD (Json.mkObj [])
+  let regsR ← regOfJson ej "rulesSets"
+  let regsS ← regOfJson ej "schemas"
+  let entries ← (← jarr (← j.getObjVal? "entries")).toList.mapM entryOfJson
+  let s0 : S.SchemaState := { schema := none, allowUnknown := .bool false }
+  let (_, outs) := entries.foldl (fun (st : S.SchemaState × List Json) e =>
+      let (s', r) := S.submit cls Extracted.metaTables regsR regsS st.1 e
+      let stj := Json.mkObj [("outcome", acceptToJson r),
+                             ("schema", match s'.schema with | some v => valToJson v | none => Json.null),
+                             ("allow_unknown", valToJson s'.allowUnknown)]
+      (s', st.2 ++ [stj])) (s0, [])
+  pure (Json.arr outs.toArray)
+
 def handle (line : String) : Json :=
   match Json.parse line with
   | .error e => Json.mkObj [("error", Json.str s!"parse: {e}")]
@@ -313,6 +377,8 @@ def handle (line : String) : Json :=
       | "normalize" => portNormalize false j
       | "validate" => portNormalize true j
       | "api" => portApi j
+      | "accept" => portAccept j
+      | "entries" => portEntries j
       | "ping" => pure (Json.str "pong")
       | _ => throw s!"bad-op {port}"
     match r with
